@@ -63,7 +63,7 @@ def load(path) -> Pack:
                 p = Path(root) / fn
                 rel = str(p.relative_to(path))
                 if fn.lower() == "index.zip":
-                    with zipfile.ZipFile(p) as z:
+                    with zipfile.ZipFile(p, metadata_encoding="utf-8") as z:
                         for info in z.infolist():
                             members.append(Member(info.filename, z.read(info.filename), info.compress_type, True))
                 else:
@@ -71,13 +71,13 @@ def load(path) -> Pack:
         return Pack("package", members)
     members = []
     nested = None
-    with zipfile.ZipFile(path) as z:
+    with zipfile.ZipFile(path, metadata_encoding="utf-8") as z:      # member names as the reader decodes them
         for i in z.infolist():
             data = z.read(i.filename)
             if i.filename.lower().endswith("index.zip") and nested is None:
                 # a zipped package: the members of the inner Index.zip are read at this position
                 nested = i.filename
-                with zipfile.ZipFile(io.BytesIO(data)) as z2:
+                with zipfile.ZipFile(io.BytesIO(data), metadata_encoding="utf-8") as z2:
                     for j in z2.infolist():
                         members.append(Member(j.filename, z2.read(j.filename), j.compress_type, True))
             else:
